@@ -659,6 +659,11 @@ func (vfs *MemFS) Remove(name string) error {
 		return &fs.PathError{Op: op, Path: name, Err: err}
 	}
 
+	if c, ok := child.(*dirNode); ok && c == parent {
+		// The root directory can't be removed (and is its own parent).
+		return &fs.PathError{Op: op, Path: name, Err: vfs.err.InvalidArgument}
+	}
+
 	parent.mu.Lock()
 	defer parent.mu.Unlock()
 
